@@ -268,6 +268,9 @@ def _xref_chain_doc(nodes):
             3: {"Type": N("Page"), "Parent": Ref(2), "MediaBox": [0, 0, 612, 792], "Resources": {"Font": {"F1": Ref(4)}},
                 "Contents": Ref(5)},
             4: {"Type": N("Font"), "Subtype": N("Type1"), "BaseFont": N("Helvetica")}}
+    # offset style: exact (first byte of `xref`), or - for every other graph - the end-of-line just before it, which
+    # readers tolerate; a cycle guard must not depend on the style
+    loose = sum(sum(v["out"]) + len(v["out"]) for v in nodes.values()) % 2
     for rnd in range(2):          # two passes: offsets of later sections are needed by earlier ones (fixed-width numbers)
         out = bytearray(b"%PDF-1.4\n")
         offs = {}
@@ -288,7 +291,7 @@ def _xref_chain_doc(nodes):
             tr = [b"/Size 6 /Root 1 0 R"]
             keys = [b"XRefStm", b"Prev"]
             for j, t in enumerate(v["out"][:2]):
-                where = (prev_pos.get(t, 0) if t else prev_size + 1000) if rnd else 0
+                where = ((prev_pos.get(t, 0) - loose) if t else prev_size + 1000) if rnd else 0
                 tr.append(b"/%s %010d" % (keys[j], where))
             # (every section ends like a revision does: the trailer dictionary is only complete for the parser when
             # the startxref keyword follows it)
